@@ -52,7 +52,8 @@ REQUIRED_REACH = ["kwarg:updated-in-place", "kwarg:overrides-default", "basis:ce
                   "list:len1", "list:len2", "list:len3", "list:cell-partition", "list:two-sides", "list:boundary+interior",
                   "list:cell+facet", "list:overlap", "list:same-object-twice", "list:trial!=test", "list:asm-all-three",
                   "list:all-pairs", "list:coo-sum-0tensor", "list:coo-sum-1tensor", "list:coo-sum-2tensor", "list:mixed-meshes",
-                  "list:idx-coefficient", "list:dofvector-parameter"] + ["list:repeated-domain:" + _b for _b in
+                  "list:idx-coefficient", "list:dofvector-parameter", "more-than-2^16-dofs", "more-than-2^16-dofs:test-above-trial-below",
+                  "more-than-2^16-dofs:trial-above-test-below", "more-than-2^16-dofs:both-above"] + ["list:repeated-domain:" + _b for _b in
                                                                          ("cell", "cell-subset", "facet-boundary", "facet-subset",
                                                                           "facet-interior-side1", "interior-side0", "interior-side1")]
 
@@ -1051,6 +1052,64 @@ def ncases(kind, mult):
         * (mult * 3 if ctx.tier == "quick" else mult * 60)
 
 
+def many_dofs(ctx, k):
+    """The statement has no size limit: spaces with more than 2^16 DOFs (index arrays no longer fit 16 bits), different
+    trial and test spaces so that one side is above and the other below the limit.  A dense reference is out of reach; the
+    oracle is the statement's own consistency clause - v^T A u against the FUNCTIONAL of the same integrand on the
+    interpolated functions, b^T v likewise - plus: every test function of a mass-type form has a non-empty row."""
+    import skfem
+    from skfem.helpers import dot, grad
+    rng = ctx.rng()
+    which = k % 4
+    if which in (0, 1):
+        mesh = skfem.MeshTri.init_tensor(np.linspace(0, 1, 129 + int(rng.integers(0, 3))), np.linspace(0, 2, 129))   # ~16.6k vertices
+        lo, hi = skfem.ElementTriP1(), skfem.ElementTriP2()                                   # ~16.6k and ~66k DOFs
+    elif which == 2:
+        mesh = skfem.MeshLine(np.linspace(0, 1, 66001 + int(rng.integers(0, 50))))
+        lo, hi = skfem.ElementLineP0(), skfem.ElementLineP1()                                 # 66000 / 66001: both above
+    else:
+        mesh = skfem.MeshQuad.init_tensor(np.linspace(0, 1, 131), np.linspace(0, 1, 127 + int(rng.integers(0, 3))))
+        lo, hi = skfem.ElementQuad1(), skfem.ElementQuad2()
+    bl, bh = skfem.CellBasis(mesh, lo, intorder=4), skfem.CellBasis(mesh, hi, intorder=4)
+    ub, vb = (bl, bh) if which != 1 else (bh, bl)          # trial below / test above the limit, and the other way round
+    tag = dict(mesh=type(mesh).__name__, trial=type(ub.elem).__name__, test=type(vb.elem).__name__, Nu=int(ub.N), Nv=int(vb.N))
+    c = float(rng.integers(1, 5))
+
+    def a_int(u, v, w):
+        return (1.0 + w.x[0]) * u * v + c * dot(grad(u), grad(v))
+
+    def l_int(v, w):
+        return (2.0 - w.x[0]) * v + c * grad(v)[0]
+    A = skfem.BilinearForm(a_int).assemble(ub, vb)
+    b = skfem.LinearForm(l_int).assemble(vb)
+    ctx.check("shape-test-by-trial", A.shape == (vb.N, ub.N) and b.shape == (vb.N,), mech="many-dofs:shape", shape=A.shape, **tag)
+    if A.shape != (vb.N, ub.N):
+        return
+    u, v = rng.standard_normal(ub.N), rng.standard_normal(vb.N)
+    uh, vh = ub.interpolate(u), vb.interpolate(v)
+    s_a = skfem.Functional(lambda w: (1.0 + w.x[0]) * w["uh"] * w["vh"] + c * dot(w["uh"].grad, w["vh"].grad)).assemble(ub, uh=uh, vh=vh)
+    mag = skfem.Functional(lambda w: (1.0 + w.x[0]) * abs(w["uh"] * w["vh"]) + c * abs(dot(w["uh"].grad, w["vh"].grad))).assemble(ub, uh=uh, vh=vh)
+    ctx.close("vTAu-equals-functional", float(v @ (A @ u)), float(s_a), rtol=1e-9, scale=float(mag), mech="many-dofs:vTAu-vs-functional", **tag)
+    s_l = skfem.Functional(lambda w: (2.0 - w.x[0]) * w["vh"] + c * w["vh"].grad[0]).assemble(vb, vh=vh)
+    magl = skfem.Functional(lambda w: (2.0 - w.x[0]) * abs(w["vh"]) + c * abs(w["vh"].grad[0])).assemble(vb, vh=vh)
+    ctx.close("linearform-equals-Au", float(b @ v), float(s_l), rtol=1e-9, scale=float(magl), mech="many-dofs:bTv-vs-functional", **tag)
+    # the positive mass-type part reaches every test function and every trial function
+    M = skfem.BilinearForm(lambda u_, v_, w: abs(u_) * abs(v_) if False else u_ * v_).assemble(ub, vb).tocsr()
+    Ma = abs(M)
+    rows_hit = np.asarray(Ma.sum(axis=1)).ravel() > 0
+    cols_hit = np.asarray(Ma.sum(axis=0)).ravel() > 0
+    ctx.check("matrix-vs-dense-reference", bool(rows_hit.all() and cols_hit.all()), mech="many-dofs:test-or-trial-function-without-entries",
+              empty_rows=int((~rows_hit).sum()), empty_cols=int((~cols_hit).sum()), **tag)
+    # the same through the elemental data and the list spelling
+    coo = skfem.BilinearForm(a_int).coo_data(ub, vb)
+    ctx.close("elemental-sums", float(v @ coo.dot(u)) if hasattr(coo, "dot") else float(v @ (coo.tocsr() @ u)), float(s_a), rtol=1e-9,
+              scale=float(mag), mech="many-dofs:coo-data", **tag)
+    ctx.reached("more-than-2^16-dofs")
+    ctx.reached("more-than-2^16-dofs:" + ("test-above-trial-below" if (vb.N > 65536 >= ub.N) else
+                                          "trial-above-test-below" if (ub.N > 65536 >= vb.N) else "both-above"))
+    ctx.nontrivial("many-dofs", which)
+
+
 FAMILIES = [Family("asm-" + kd, fam(kd), ncases(kd, m), ncases(kd, m), budget={"quick": 40, "thorough": 600})
             for kd, m in (("line", 1), ("tri", 2), ("quad", 2), ("tet", 1), ("hex", 1), ("wedge", 1))]
 FAMILIES.append(Family("trilinear", trilinear, 8, 160))
@@ -1058,3 +1117,4 @@ FAMILIES.append(Family("bare-fields", bare_fields, 10, 200))
 FAMILIES.append(Family("jump-terms", jump_terms, 16, 480, budget={"quick": 40, "thorough": 400}))
 FAMILIES.append(Family("scalar-kinds", scalar_kinds, 4, 80))
 FAMILIES.append(Family("basis-lists", list_of_bases, 36, 1440, budget={"quick": 40, "thorough": 600}))
+FAMILIES.append(Family("many-dofs", many_dofs, 4, 24, budget={"quick": 120, "thorough": 600}))
